@@ -271,10 +271,18 @@ def apply(I, st, inst, node, nidx, callee, args, term, dty, line):
         return ("unit", "()")
 
     # ---------------------------------------------------------------- integers / options
-    if path == "core::cmp::max" or path == "core::cmp::min":
+    if path == "core::cmp::max" or path == "core::cmp::min" or (trait == "core::cmp::Ord" and name in ("max", "min") and len(args) == 2
+                                                                and all(isinstance(x, Poly) for x in args)):
         a, b = sorted([as_poly(args[0]), as_poly(args[1])], key=repr)
         if a == b:
             return a
+        # decided by the facts of the case under analysis
+        from .interp import implies_ge0
+        if st.facts:
+            if implies_ge0(st.facts, a - b):
+                return a if name == "max" else b
+            if implies_ge0(st.facts, b - a):
+                return b if name == "max" else a
         return Poly.atom((name, a, b))
     if path.startswith("core::num::<impl usize>::checked_"):
         op = {"checked_add": "Add", "checked_sub": "Sub", "checked_mul": "Mul"}.get(name)
@@ -348,6 +356,17 @@ def apply(I, st, inst, node, nidx, callee, args, term, dty, line):
             # the abstract range value is kept (the yielded index is an opaque atom; iteration itself is not modelled)
             E("RANGE_NEXT", direction=direction, range=h(rng), path=p)
             return ("rangenext", site, direction, h(rng))
+        cur = st.env.get(p) if p is not None else None
+        if isinstance(cur, tuple) and cur[:2] == ("iteradapt", "take") and len(cur[2]) == 2 and name == "next":
+            # `it.by_ref().take(n)`: at most n items are pulled from the underlying (user) iterator; the adaptor value itself is kept
+            inner = cur[2][0]
+            while isinstance(inner, tuple) and inner[:1] == ("iteradapt",) and inner[1] in ("by_ref",) and inner[2]:
+                inner = inner[2][0]
+            ip = ref_path(inner)
+            E("USER", what="iter-" + name, target=canon_path(I, st, ip) if ip else h(inner), self_ty=sts, forwards=name, bound=as_poly(cur[2][1]))
+            if ip is not None:
+                I.havoc(st, ip, site)
+            return ("usernext", site)
         E("USER", what="iter-" + name, target=canon_path(I, st, p) if p else h(args[0]), self_ty=sts, forwards=name)
         if p is not None:
             I.havoc(st, p, site)
